@@ -67,6 +67,30 @@ impl AffiliatePortfolioSecurityStatuses {
         }
     }
 
+    /// The total of the latest share balances of all affiliates other than `af`.
+    ///
+    /// The all-affiliate share balance is always derived from this (plus the
+    /// balance of `af`), rather than by applying share differences to a running
+    /// total, since the latter drifts when balances are not exactly representable
+    /// (eg. after a 1-for-3 split). Summed in affiliate id order, so that the
+    /// result is reproducible.
+    pub fn other_affiliates_share_balance(
+        &self,
+        af: &Affiliate,
+    ) -> GreaterEqualZeroDecimal {
+        let mut others: Vec<(&Affiliate, &Rc<PortfolioSecurityStatus>)> = self
+            .last_post_status_for_affiliate
+            .iter()
+            .filter(|(other_af, _)| *other_af != af)
+            .collect();
+        others.sort_by(|a, b| a.0.id().cmp(b.0.id()));
+        let mut total = GreaterEqualZeroDecimal::zero();
+        for (_, status) in others {
+            total += status.share_balance;
+        }
+        total
+    }
+
     pub fn get_latest_post_status(&self) -> Rc<PortfolioSecurityStatus> {
         match self.get_latest_post_status_for_affiliate(&self.latest_affiliate) {
             Some(s) => s.clone(),
@@ -85,9 +109,8 @@ impl AffiliatePortfolioSecurityStatuses {
             Some(status) => status.share_balance,
             None => GreaterEqualZeroDecimal::zero(),
         };
-        let expected_all_share_bal = *v.share_balance
-            + *self.latest_all_affiliates_share_balance
-            - *last_share_balance;
+        let expected_all_share_bal =
+            *(self.other_affiliates_share_balance(af) + v.share_balance);
 
         assert_eq!(
             af.registered(),
